@@ -116,8 +116,96 @@ def _case(draw):
     return {'docs': docs, 'pool': pool}
 
 
+@st.composite
+def _wild_value(draw, ctr, depth=0):
+    c = draw(st.integers(0, 5 if depth < 3 else 1))
+    fl = {}
+    if draw(st.integers(0, 2)) == 0:
+        fl['prio'] = draw(st.sampled_from([1, -1]))
+    if c <= 1:
+        ctr[0] += 1
+        node = tdoc.sc(ctr[0])
+    elif c <= 3:
+        node = tdoc.sq([draw(_wild_value(ctr, depth + 1)) for _ in range(draw(st.integers(0, 3)))], flow=True)
+    elif c == 4:
+        keys = draw(st.lists(st.sampled_from(['x', 'y', 0, 1, 2, -1]), max_size=3, unique=True))
+        node = tdoc.mp([(k, draw(_wild_value(ctr, depth + 1))) for k in keys], flow=True)
+    else:
+        ctr[1] += 1
+        keys = draw(st.lists(st.sampled_from(['x', 'y', 0, 1]), max_size=2, unique=True))
+        node = tdoc.mp([(k, draw(_wild_value(ctr, depth + 1))) for k in keys], flow=True, tag=f'!call:vfrec.call_{ctr[1]}')
+    if node['t'] != 'sc' and draw(st.integers(0, 2)) == 0:
+        fl['del'] = draw(st.booleans())
+    if fl:
+        fl['mdstyle'] = 'short' if len(fl) == 1 else 'braces'
+        node.update(fl)
+    return node
+
+
+@st.composite
+def _wild_case(draw):
+    # lists in lists, lists meeting mappings and function nodes, every mix of priority and !del / !merge tags, in 2-3 stages: there is
+    # no model of where everything ends up, but whatever the merged config holds has been written by a stage (see _run_wild)
+    ctr = [0, 0]
+    docs = []
+    for _ in range(draw(st.integers(2, 3))):
+        d = tdoc.mp([(k, draw(_wild_value(ctr, 1))) for k in draw(st.lists(st.sampled_from(['a', 'b']), min_size=1, max_size=2, unique=True))], flow=False)
+        if draw(st.integers(0, 4)) == 0:
+            d.update(prio=draw(st.sampled_from([1, -1])), mdstyle='short')
+        docs.append(d)
+    return {'wild': True, 'docs': docs}
+
+
 def strategy():
-    return _case()
+    return st.one_of(_case(), _case(), _case(), _wild_case())
+
+
+def _leaves(x, out):
+    if isinstance(x, dict):
+        for v in x.values():
+            _leaves(v, out)
+    elif isinstance(x, (list, tuple)):
+        for v in x:
+            _leaves(v, out)
+    else:
+        out.append(x)
+    return out
+
+
+def _run_wild(case):
+    import vfrec
+    docs = case['docs']
+    texts = [tdoc.render(d) for d in docs]
+    written = [n['v'] for d in docs for _, n in tdoc.walk(d) if n['t'] == 'sc']
+    labels = {'wild', f'stages={len(docs)}'}
+    vfrec.reset()
+    status, cfg = O.try_call(O.build_config, texts)
+    src = '\nsources:\n' + '\n'.join(texts)
+    if status != 'ok':
+        # (a mapping key that is no index of the list it meets, an argument a target cannot take, ...: rejected, nothing to say)
+        labels.add('wild-rejected=' + type(cfg).__name__)
+        return Outcome(nontrivial=False, labels=sorted(labels))
+    call_ids = {int(n['tag'].rsplit('_', 1)[1]) for d in docs for _, n in tdoc.walk(d) if str(n.get('tag', '')).startswith('!call:vfrec.call_')}
+    # what a call returns: {'called': id, 'args': [...], 'kw': {...}} - the id is no written scalar
+    def strip(x):
+        if isinstance(x, dict) and set(x) == {'called', 'args', 'kw'} and x['called'] in call_ids:
+            return {'args': strip(x['args']), 'kw': strip(x['kw'])}
+        if isinstance(x, dict):
+            return {k: strip(v) for k, v in x.items()}
+        if isinstance(x, (list, tuple)):
+            return [strip(v) for v in x]
+        return x
+    got = _leaves(strip(O.to_builtin(cfg)), [])
+    invented = [x for x in got if not (type(x) is int and x in written)]
+    if invented:
+        raise Violation(f'C03: the merged config holds {invented!r}, which no stage has written (every value is the one written by some stage); '
+                        f'config: {O.to_builtin(cfg)!r}{src}')
+    dup = sorted({x for x in got if got.count(x) > 1})
+    if dup:
+        raise Violation(f'C03: the value(s) {dup!r}, written once, stand at several places of the merged config {O.to_builtin(cfg)!r}{src}')
+    if any(n['t'] == 'seq' and any(m['t'] != 'sc' for m in n['items']) for d in docs for _, n in tdoc.walk(d)):
+        labels.add('wild-containers-inside-lists')
+    return Outcome(nontrivial=len(got) > 0 and any(n.get('prio') for d in docs for _, n in tdoc.walk(d)), labels=sorted(labels))
 
 
 def _writers(doc, stage):
@@ -145,6 +233,8 @@ def _writers(doc, stage):
 
 
 def run_case(case):
+    if case.get('wild'):
+        return _run_wild(case)
     docs = case['docs']
     texts = [tdoc.render(d) for d in docs]
     leaf_writers, cont_writers = {}, {}
